@@ -50,9 +50,16 @@ def gen_case(rng, name):
         for i in range(n):
             if all((i, j) in nan for j in range(m)):
                 nan.discard((i, rng.randrange(m)))
-    return {"matrix": mtx, "nan": sorted([list(x) for x in nan]), "objectives": gen.objectives(rng, m),
-            "weights": gen.weights(rng, m), "alternatives": gen.labels(rng, n, gen.LABEL_POOL_A, "A"),
-            "criteria": gen.labels(rng, m, gen.LABEL_POOL_C, "C"), "tf": cfg, "mode": mode}
+    c = {"matrix": mtx, "nan": sorted([list(x) for x in nan]), "objectives": gen.objectives(rng, m),
+         "weights": gen.weights(rng, m), "alternatives": gen.labels(rng, n, gen.LABEL_POOL_A, "A"),
+         "criteria": gen.labels(rng, m, gen.LABEL_POOL_C, "C"), "tf": cfg, "mode": mode}
+    if rng.random() < 0.5:
+        # the same imputer object has already been used on another matrix with the same criteria (other values, other gaps)
+        wn = rng.randint(3, 7)
+        wmtx = [[float(rng.randint(30, 90)) for _ in range(m)] for _ in range(wn)]
+        wnan = [[rng.randrange(1, wn), j] for j in range(m) if rng.random() < 0.6]
+        c["warm"] = {"matrix": wmtx, "nan": wnan}
+    return c
 
 
 def run_impl(case):
